@@ -228,6 +228,27 @@ Theorem decimal_correct :
 Proof. exact decimal_correct_lemma. Qed.
 
 (* ---- assumptions ---- *)
+(* here-documents (XCU 2.7.4), texts of literal characters and escapes: the
+   value is the characters themselves with the backslash of every escape
+   removed, as ONE string, whatever IFS is, and the environment is unchanged *)
+Theorem heredoc_plain_text_value :
+  forall (t : text) (s : str) (e : env),
+    plain_value t = Some s -> expand_text_single t e = Ok s e.
+Proof. exact plain_text_value_lemma. Qed.
+
+(* a here-document with a quoted delimiter (all characters literal): no
+   expansion at all *)
+Theorem heredoc_quoted_delimiter_no_expansion :
+  forall (s : str) (e : env), expand_text_single (literal_text s) e = Ok s e.
+Proof. exact quoted_heredoc_lemma. Qed.
+
+(* the specification never prescribes anything else for such a text *)
+Theorem heredoc_plain_text_spec_agrees :
+  forall (t : text) (s : str) (e : env),
+    plain_value t = Some s ->
+    spec_text_single t e = SUnspec \/ spec_text_single t e = SOk s e.
+Proof. exact plain_text_spec_lemma. Qed.
+
 Print Assumptions ranges_eq_split_spec.
 Print Assumptions ranges_satisfy_split_spec.
 Print Assumptions split_spec_functional.
@@ -267,3 +288,6 @@ Print Assumptions words_oracle_accepts_model.
 Print Assumptions pmatch_eq_matches.
 Print Assumptions trim_value_spec.
 Print Assumptions decimal_correct.
+Print Assumptions heredoc_plain_text_value.
+Print Assumptions heredoc_quoted_delimiter_no_expansion.
+Print Assumptions heredoc_plain_text_spec_agrees.
